@@ -108,7 +108,31 @@ func (t *c18Tool) InvokableRun(ctx context.Context, args string, opts ...tool.Op
 	c18Mu.Lock()
 	*t.runs = append(*t.runs, t.name+"("+args+")")
 	c18Mu.Unlock()
-	return "r_" + t.name + "(" + args + ")", nil
+	return c18Out(t.name, args), nil
+}
+
+// the result of a tool call: t0 answers in one piece; t1 (stream-only) answers args+args in two chunks, which is
+// the empty string for empty arguments
+func c18Out(name, args string) string {
+	if name == "t1" {
+		return args + args
+	}
+	return "r_" + name + "(" + args + ")"
+}
+
+type c18StreamTool struct {
+	name string
+	runs *[]string
+}
+
+func (t *c18StreamTool) Info(ctx context.Context) (*schema.ToolInfo, error) {
+	return &schema.ToolInfo{Name: t.name}, nil
+}
+func (t *c18StreamTool) StreamableRun(ctx context.Context, args string, opts ...tool.Option) (*schema.StreamReader[string], error) {
+	c18Mu.Lock()
+	*t.runs = append(*t.runs, t.name+"("+args+")")
+	c18Mu.Unlock()
+	return schema.StreamReaderFromArray([]string{args, args}), nil
 }
 
 func c18Run(turns int) {
@@ -127,7 +151,7 @@ func c18Run(turns int) {
 			idn++
 			ix := j
 			m.ToolCalls = append(m.ToolCalls, schema.ToolCall{Index: &ix, ID: []string{"", "c1", "c2", "c3", "c4", "c5", "c6", "c7", "c8"}[idn],
-				Function: schema.FunctionCall{Name: names[vrange("tool", 0, 1)], Arguments: []string{"x", "y"}[j]}})
+				Function: schema.FunctionCall{Name: names[vrange("tool", 0, 1)], Arguments: []string{"x", ""}[j]}})
 		}
 		script = append(script, m)
 		chunking = append(chunking, vchoose("chunking", 3))
@@ -145,7 +169,7 @@ func c18Run(turns int) {
 	var runs []string
 	mdl := &c18Model{script: script, chunking: chunking}
 	ag, err := NewAgent(ctx, &AgentConfig{ToolCallingModel: mdl, MaxStep: maxStep, ToolReturnDirectly: direct,
-		ToolsConfig: compose.ToolsNodeConfig{Tools: []tool.BaseTool{&c18Tool{"t0", &runs}, &c18Tool{"t1", &runs}}}})
+		ToolsConfig: compose.ToolsNodeConfig{Tools: []tool.BaseTool{&c18Tool{"t0", &runs}, &c18StreamTool{"t1", &runs}}}})
 	vassert(err == nil, "agent is created")
 	user := vsymStr("user")
 	input := []*schema.Message{schema.UserMessage(user)}
@@ -184,7 +208,7 @@ func c18Run(turns int) {
 		directID := ""
 		for _, tc := range m.ToolCalls {
 			refRuns = append(refRuns, tc.Function.Name+"("+tc.Function.Arguments+")")
-			results = append(results, c18Msg{role: schema.Tool, content: "r_" + tc.Function.Name + "(" + tc.Function.Arguments + ")", tcID: tc.ID})
+			results = append(results, c18Msg{role: schema.Tool, content: c18Out(tc.Function.Name, tc.Function.Arguments), tcID: tc.ID})
 			if _, ok := direct[tc.Function.Name]; ok && directID == "" {
 				directID = tc.ID
 			}
